@@ -132,6 +132,119 @@ func (c *c20) scalar(kind string, val []byte) {
 			ev["rst"] = "err"
 		}
 	}()
+	// the same value through the BinaryProtocol's own typed writer and reader
+	ev["penc"], ev["pwst"], ev["prst"], ev["prval"], ev["prn"] = B{}, "skipped", "skipped", B{}, 0
+	func() {
+		defer func() {
+			if e := recover(); e != nil {
+				if ev["pwst"] == "skipped" {
+					ev["pwst"] = "panic:" + fmt.Sprint(e)
+				} else {
+					ev["prst"] = "panic:" + fmt.Sprint(e)
+				}
+			}
+		}()
+		x := uint64(fromBE8(val))
+		p := dbin.NewBinaryProtocolBuffer()
+		defer dbin.FreeBinaryProtocol(p)
+		var err error
+		switch kind {
+		case "int32":
+			err = p.WriteInt32(int32(x))
+		case "enum":
+			err = p.WriteEnum(dproto.EnumNumber(int32(x)))
+		case "int64":
+			err = p.WriteInt64(int64(x))
+		case "uint32":
+			err = p.WriteUint32(uint32(x))
+		case "uint64":
+			err = p.WriteUint64(x)
+		case "sint32":
+			err = p.WriteSint32(int32(x))
+		case "sint64":
+			err = p.WriteSint64(int64(x))
+		case "bool":
+			err = p.WriteBool(x != 0)
+		case "fixed32":
+			err = p.WriteFixed32(uint32(x))
+		case "sfixed32":
+			err = p.WriteSfixed32(int32(x))
+		case "float":
+			err = p.WriteFloat(math.Float32frombits(uint32(x)))
+		case "fixed64":
+			err = p.WriteFixed64(x)
+		case "sfixed64":
+			err = p.WriteSfixed64(int64(x))
+		case "double":
+			err = p.WriteDouble(math.Float64frombits(x))
+		case "string":
+			err = p.WriteString(string(val))
+		case "bytes":
+			err = p.WriteBytes(val)
+		}
+		ev["pwst"] = st(err)
+		penc := append([]byte{}, p.Buf...)
+		ev["penc"] = B(penc)
+		q := &dbin.BinaryProtocol{Buf: append(append([]byte{}, penc...), 0xAA, 0xBB)}
+		var rv []byte
+		switch kind {
+		case "int32":
+			v, e := q.ReadInt32()
+			err, rv = e, be8(int64(v))
+		case "enum":
+			v, e := q.ReadEnum()
+			err, rv = e, be8(int64(int32(v)))
+		case "int64":
+			v, e := q.ReadInt64()
+			err, rv = e, be8(v)
+		case "uint32":
+			v, e := q.ReadUint32()
+			err, rv = e, be8(int64(v))
+		case "uint64":
+			v, e := q.ReadUint64()
+			err, rv = e, be8(int64(v))
+		case "sint32":
+			v, e := q.ReadSint32()
+			err, rv = e, be8(int64(v))
+		case "sint64":
+			v, e := q.ReadSint64()
+			err, rv = e, be8(v)
+		case "bool":
+			v, e := q.ReadBool()
+			err, rv = e, be8(0)
+			if v {
+				rv = be8(1)
+			}
+		case "fixed32":
+			v, e := q.ReadFixed32()
+			err, rv = e, be4(uint32(v))
+		case "sfixed32":
+			v, e := q.ReadSfixed32()
+			err, rv = e, be4(uint32(v))
+		case "float":
+			v, e := q.ReadFloat()
+			err, rv = e, be4(math.Float32bits(v))
+		case "fixed64":
+			v, e := q.ReadFixed64()
+			err, rv = e, be8(int64(v))
+		case "sfixed64":
+			v, e := q.ReadSfixed64()
+			err, rv = e, be8(v)
+		case "double":
+			v, e := q.ReadDouble()
+			err, rv = e, be8(int64(math.Float64bits(v)))
+		case "string":
+			v, e := q.ReadString(true)
+			err, rv = e, []byte(v)
+		case "bytes":
+			v, e := q.ReadBytes()
+			err, rv = e, append([]byte{}, v...)
+		}
+		if rv == nil {
+			rv = []byte{}
+		}
+		ev["prst"], ev["prval"], ev["prn"] = st(err), B(rv), q.Read
+	}()
 	c.out.Emit(ev)
 }
 
